@@ -156,41 +156,68 @@ PROPS = {
                         "SignDotProd: |a|^2 <= 2 and |b|^2 <= 2; CompareDistance: r is a valid chord angle (0..4, -1 or +Inf), not NaN"],
     },
     "C19": {
-        # n = cases per run (the generator adds n/20 math.Remainder self-checks); measured 900-1000 oracle lines/s on 16 cores
-        "generators": [("c19", 24000, 450000)],
-        "modules": ["S2.F64", "S2.F64Extra", "S2.Interval"],
-        "rule": "pairs of r1 / s1 intervals, r2 rectangles and lat-lng rectangles drawn from {empty (canonical and non-canonical), full, "
-                "singleton, inverted, ordinary} with endpoints from {+-pi, +-pi/2, 0, -0, 0..2 ulps around those, denormal / tiny, "
-                "multiples of pi/4, uniform}; the second operand is independent or derived from the first (equal, complement, swapped "
-                "endpoints, touching / nested / overlapping within 2 ulps at an endpoint); margins from {0, denormal, around dblEpsilon, "
-                "the critical margin that just closes the circle or just empties the interval +-4 ulps, pi/2, pi, 2pi, uniform, 30% negative}; "
-                "probe points = every endpoint of both operands and both float neighbours, +-pi, +-pi/2, +-0, next floats inside +-pi, random "
-                "(lat-lng probes also slightly outside +-pi/2, which the API documents as ignored); every line compares every public method "
-                "bit-exactly with the soft-float model and judges the property clauses on the implementation's own output; "
+        # c19: n cases (+ n/20 math.Remainder self-checks), ~900-1000 oracle lines/s on 16 cores;
+        # c19cap: n cap cases (+ n/10 ChordAngle arithmetic lines), ~300 lines/s (exact 2148-bit rational judge)
+        # c19capsearch: the same cap cases judged natively in Go (library + exact rational membership of Union / AddCap), ~7000 cases/s;
+        #   it emits a `cap` line only for a FAILING case (which the oracle then flags), so a clean run adds no evaluations
+        "generators": [("c19", 24000, 450000), ("c19cap", 4000, 45000), ("c19capsearch", 30000, 1000000)],
+        "modules": ["S2.F64", "S2.F64Extra", "S2.Interval", "S2.CapM", "S2.Exact", "S2.STUV"],
+        "rule": "INTERVALS / RECTANGLES: pairs of r1 / s1 intervals, r2 rectangles and lat-lng rectangles drawn from {empty (canonical and "
+                "non-canonical), full, singleton, inverted, ordinary} with endpoints from {+-pi, +-pi/2, 0, -0, 0..2 ulps around those, "
+                "denormal / tiny, multiples of pi/4, uniform}; the second operand is independent or derived from the first (equal, "
+                "complement, swapped endpoints, touching / nested / overlapping within 2 ulps at an endpoint); margins from {0, denormal, "
+                "around dblEpsilon, the critical margin that just closes the circle or just empties the interval +-4 ulps, pi/2, pi, 2pi, "
+                "uniform, 30% negative}; probe points = every endpoint of both operands and both float neighbours, +-pi, +-pi/2, +-0, next "
+                "floats inside +-pi, random (lat-lng probes also slightly outside +-pi/2, documented as ignored).  "
+                "CAPS: pairs of valid caps given by (centre bits, chord-angle radius bits): radius from {empty -1, full 4, 0, 1e-300..1e-15, "
+                "hemisphere 2 +-2 ulps, 4 minus 0..3 ulps, 0.5/1/2.5/3 +-2 ulps, squares of small angles, uniform}, centres from {axes, "
+                "1e-8 / 1e-15 off an axis, face diagonals, uniform}; second cap independent or derived (same centre, internally / externally "
+                "tangent, containing-tangent, centred on the boundary, complement, antipodal centre, radius +-2 ulps); probes = both centres, "
+                "both antipodes, points constructed on each boundary (twice), their coordinate-ulp neighbours, and the pair of points found "
+                "by walking one coordinate ulp by ulp until ContainsPoint flips, plus random unit points; expansion distance in [0, pi] "
+                "(negative distances are out of contract upstream).  Every line compares every modelled method bit-exactly with the "
+                "soft-float model and judges the property clauses on the implementation's own output (caps: with the library's own "
+                "ContainsPoint for Union / AddCap / Expanded / AddPoint, and up to an explicit exact-rational rounding allowance "
+                "2||p|^2-1| + 2||c|^2-1| + 2^-48 for Contains / Intersects / Complement).  "
                 "non-trivial = any op other than the f64rem soft-float self-validation; distinct = distinct (op, arguments)",
         "nontrivial": lambda l: not l.startswith("f64rem"),
         "trusted_base": [
-            "carrier laws assumed by the theorems (S2Proofs.IvlLaws / IvlArithLaws: float == is equality of a linear order, -pi < pi, "
-            "|a| <= b iff -b <= a <= b, a (+) m >= a and a (-) m <= a for m >= 0 and conversely for m <= 0, Remainder(x, 2pi) in [-pi, pi]); "
-            "satisfiable (instances for Int), true of float64 without NaN with +0/-0 identified, but not proved for the soft-float itself",
+            "carrier laws assumed by the interval theorems (S2Proofs.IvlLaws / IvlArithLaws / IvlLengthLaws: float == is equality of a "
+            "linear order, -pi < pi, |a| <= b iff -b <= a <= b, a (+) m >= a and a (-) m <= a for m >= 0 and conversely for m <= 0, "
+            "Remainder(x, 2pi) in [-pi, pi], (-pi)-pi < 0 and ((-pi)-pi)+2pi not > 0); satisfiable (instances for Int), true of float64 "
+            "without NaN with +0/-0 identified, but not proved for the soft-float itself",
             "completeness directions of ContainsInterval / InteriorContainsInterval / InteriorIntersects are proved for a densely ordered "
             "carrier (intervals denote arcs of the real circle); on the float grid alone they fail for 1-ulp gaps (documented in C19.lean)",
-            "s1.Interval.Expanded keeps-every-point is proved only for exact arithmetic (s1_expanded_contains_exact_partial); for float64 it is "
-            "FALSE (two theorems with concrete counterexamples) and is judged by the oracle on every generated case",
+            "caps: CapLaws (dist in [0,4], dist(x,x)=0, clamping of Add/Sub/Expanded, unit-ness of -c) hold for the float code by "
+            "construction but are not proved for the soft-float; ChordLaws (triangle inequality in chord-angle form, monotonicity of "
+            "ChordAngle.Add, a <= Add a b, slack of AddCap) are exact geometry which floats satisfy only up to rounding: the theorems "
+            "using them are _partial and the oracle measures the float code against them",
+            "not modelled (libm): ChordAngleFromAngle (sin; Go's value is passed on the line), ChordAngle.Angle, Cap.RectBound and the "
+            "trigonometric part of Cap.Union (its outcome is a parameter of CapM.unionWith); Cap.Union is judged on Go's output only",
+            "the error analysis of Cap.AddCap's allowance (comment in s2/cap.go) is an argument on paper, validated by the adversarial "
+            "search, not a Lean theorem",
+            "the rounding allowance used when judging cap Contains / Intersects / Complement at tangency (formula above) is a choice of "
+            "this check, not a documented bound of the library",
             "export hook s2.VerifRectExpanded (s2/verif_export_c19.go, build tag verif) exposes the unexported Rect.expanded",
-            "caps (s2.Cap, s1.ChordAngle) are not modelled in this package",
         ],
         "assumptions": [
             "s1 intervals satisfy IsValid and circle points lie in [-pi, pi] (documented domain); lat-lng rectangles satisfy IsValid",
             "r2.Rect.Contains / InteriorContains are judged for valid arguments (x empty iff y empty)",
             "ClampPoint / Project are called on non-empty intervals only (documented)",
+            "caps satisfy IsValid, probe points satisfy IsUnit, Cap.Expanded is called with distance >= 0 (upstream C++ contract)",
             "no NaN and no infinities among the inputs",
         ],
-        "level_text": "proof (Lean 4): 68 theorems over an abstract linearly ordered carrier for r1.Interval, s1.Interval, r2.Rect and the "
-                      "lat-lng s2.Rect, all inputs incl. empty / full / singleton / inverted / endpoints at +-pi; the model is the same "
-                      "generic definition that runs bit-exactly on the soft-float against the Go code",
-        "level_note": "partial: s1.Expanded (and Rect.expanded through it) keeps-every-point is false for the float code (findings: "
-                      "2*dblEpsilon slack too small; Length() = -1 for the non-empty interval [pi, nextafter(-pi,0)]); caps not covered",
+        "level_text": "proof (Lean 4): 81 theorems over abstract linearly ordered carriers for r1.Interval, s1.Interval, r2.Rect, the lat-lng "
+                      "s2.Rect (all at full strength after repairs 9d93e9d / 636e942, incl. s1.Expanded keeps every point for any rounding) "
+                      "and s2.Cap (logic full, chord-angle arithmetic under explicit exact-geometry laws); the models are the same generic "
+                      "definitions that run bit-exactly on the soft-float against the Go code",
+        "level_note": "partial for caps: numeric parts (_partial theorems) hold for exact chord arithmetic only; the trigonometric part of "
+                      "Cap.Union is not modelled, but after the repair every return path of Union ends in AddCap and "
+                      "cap_union_contains_partial proves containment of both operands for ANY outcome of the trigonometry.  Findings "
+                      "repaired in /repo (docs/fixes/fix_capAddCap.diff, fix_capUnion.diff): Cap.Union lost operand points by 1-2 ulps in "
+                      "~6% of boundary-probed cases and returned a NaN centre for centres antipodal up to denormal offsets; Cap.AddCap's "
+                      "dblEpsilon slack was 1 ulp short in ~0.02%.  After the repair: 0 failures in 1.12e6 cases / 2.8e7 boundary probes "
+                      "(library and exact membership); failures reappear only below 0.25x of the new allowance (it is applied at 1.5x)",
     },
     "C04": {
     # (generator, quick n, thorough n); quick ~ 40 s on 16 cores, thorough ~ 7 min
